@@ -20,4 +20,4 @@ def run(ctx):
         if r < 0.75:
             return K.gen_sync_prog(rng, "all", max_actors=3 if quick else 4, max_ops=5)
         return K.gen_comm_prog(rng, max_actors=3, max_ops=4, timed=True)
-    kernel_sync.run(ctx, "time", 150, 2000, gen=gen)
+    kernel_sync.run(ctx, "time", 150, 800, gen=gen)
